@@ -19,14 +19,14 @@ RULE = ('Cases: paired FASTQ read sets over a 2k..6k-base genome (read lengths f
         'equals the model sequence of passing windows in read order (Python ntHash); no Bloom false negative; counts '
         'increase by one per Bloom hit; a k-mer is accepted exactly when the count reaches C (C=2: from the second sighting '
         'on).  An extra dictionary entry is excused only by an observed Bloom false positive or an observed 64-bit hash '
-        'collision; a missing entry never.  Non-trivial: some k-mer is below and some at/above the count, or a quality '
+        'collision; a missing entry never.  Builds of 2..20 read-pair samples with --threads 1..8 are compared column by column with the per-sample model.  Non-trivial: some k-mer is below and some at/above the count, or a quality '
         'equals the threshold; distinct = distinct (parameters, reads).')
 ASSUMPTIONS = ['the exact counter in this file states the specification; quality = ASCII - 33',
                'hooked runs use --threads 1 so that the event order is the read order']
 REQUIRED = {t: ['rule:none', 'rule:middle', 'rule:strict', 'quality_equal_threshold', 'probes_at_C', 'probes_below_C',
                 'probes_above_C', 'filter_calls_monitored', 'accepts_monitored', 'mincount:1', 'mincount:2', 'mincount:3+',
                 'kmers_included', 'kmers_excluded_by_count'] for t in ('quick', 'thorough')}
-REQUIRED['quick'] = REQUIRED['quick'] + ['large_input_distinct_kmers']
+REQUIRED['quick'] = REQUIRED['quick'] + ['large_input_distinct_kmers', 'multi_sample_builds', 'multi_sample_parallel_builds']
 REQUIRED['thorough'] = REQUIRED['quick']
 RULES = {'none': 'no-filter', 'middle': 'middle', 'strict': 'strict'}
 
@@ -51,6 +51,10 @@ def plan(tier, seed, rng, scale):
                       'seed': rng.getrandbits(32), 'large': 250000})
     for i, d in enumerate(descs):
         d['chk'] = (i % 8 == 0) and not d.get('large')
+    for i in range(int((40 if tier == 'quick' else 400) * scale)):
+        descs.append({'k': rng.choice([9, 15, 21, 31, 33]), 'rc': rng.random() < 0.7, 'rule': rng.choice(list(RULES)),
+                      'minc': rng.randint(1, 5), 'minq': rng.choice([0, 2, 20]), 'seed': rng.getrandbits(32),
+                      'multi': rng.choice([2, 10, 11, 12, 20]), 'threads': rng.choice([1, 2, 4, 8]), 'chk': False})
     return descs
 
 
@@ -226,8 +230,76 @@ def monitor(res, ev, seq_model, minc, sig, detail):
     return fp
 
 
+def run_multi(desc, ctx, res):
+    """Several read-pair samples in one build (parallel for >= 10 samples and > 1 thread): every column must equal the
+    dictionary of its own reads; samples share most of their k-mers, so state leaking from one sample's filter into the
+    next one's would show."""
+    k, rcmode, rule, minc, minq = desc['k'], desc['rc'], desc['rule'], desc['minc'], desc['minq']
+    rng = random.Random(desc['seed'])
+    ns = desc['multi']
+    base = G.rseq(rng, rng.randint(2 * k, 4 * k))
+    lines = []
+    expected = []
+    for s_ in range(ns):
+        d2 = dict(desc, seed=rng.getrandbits(32))
+        genome = list(base)
+        for _ in range(rng.randint(0, 2)):
+            genome[rng.randrange(len(genome))] = rng.choice('ACGT')
+        genome = ''.join(genome)
+        reads = [[], []]
+        for r in range(rng.randint(6, 14)):
+            L = rng.randint(k, len(genome))
+            a = rng.randrange(len(genome) - L + 1)
+            t = genome[a:a + L]
+            if rng.random() < 0.5:
+                t = M.rc(t)
+            q = ''.join(chr(33 + rng.choice([minq, max(0, minq - 1), 41, 41, 41])) for _ in range(L))
+            reads[r % 2].append((t, q))
+        for j in (0, 1):
+            if not reads[j]:
+                reads[j].append((genome[:k], chr(33 + 41) * k))
+            ctx.write('m%d_%d.fastq' % (s_, j), fastq_text(reads[j]))
+        lines.append('m%d\t%s\t%s\n' % (s_, ctx.path('m%d_0.fastq' % s_), ctx.path('m%d_1.fastq' % s_)))
+        pw = passing_windows(reads[0] + reads[1], k, rcmode, minq, rule)
+        counts = {}
+        for w in pw:
+            counts[w] = counts.get(w, 0) + 1
+        expected.append(dictionary(counts, k, rcmode, minc))
+    ctx.write('mlist', ''.join(lines))
+    res.count('multi_sample_builds')
+    if ns >= 10 and desc['threads'] > 1:
+        res.count('multi_sample_parallel_builds')
+    res.evals += 1
+    p = G.ska_build(ctx, ctx.path('mo'), ['-f', ctx.path('mlist'), '--min-count', minc, '--min-qual', minq, '--qual-filter', RULES[rule],
+                                          '--threads', desc['threads']], k, rcmode)
+    detail = {'k': k, 'rc': rcmode, 'rule': rule, 'min_count': minc, 'min_qual': minq, 'samples': ns, 'threads': desc['threads'], 'seed': desc['seed']}
+    if any(not e for e in expected):
+        if p.returncode == 0:
+            res.violate('C12:multi:accepted-empty', 'build succeeded although a sample has no qualifying k-mer', detail)
+        else:
+            res.count('nothing_qualifies_refused')
+        return
+    if p.returncode != 0:
+        res.violate('C12:multi:build-failed', 'multi-sample FASTQ build failed: %s' % p.stderr.strip()[-200:], detail)
+        return
+    hdr, T = G.nk(ctx, ctx.path('mo.skf'))
+    keys = set()
+    for e in expected:
+        keys.update(e)
+    model = {a: [e.get(a, '-') for e in expected] for a in keys}
+    if T != model or hdr.get('names') != ['m%d' % i for i in range(ns)]:
+        d = [(x, T.get(x), model.get(x)) for x in set(T) | set(model) if T.get(x) != model.get(x)]
+        res.violate('C12:multi:%s' % rule, 'k=%d min-count=%d rule=%s %d samples --threads %d: table differs from the per-sample counting model, e.g. %s'
+                    % (k, minc, rule, ns, desc['threads'], d[:3]), detail)
+        return
+    res.nontrivial.append(fingerprint(['multi', desc['seed']]))
+
+
 def run_case(desc, ctx):
     res = Result()
+    if desc.get('multi'):
+        run_multi(desc, ctx, res)
+        return res
     k, rcmode, rule, minc, minq = desc['k'], desc['rc'], desc['rule'], desc['minc'], desc['minq']
     rng = random.Random(desc['seed'])
     reads, probes = gen_reads(rng, desc)
